@@ -8,9 +8,9 @@ import warnings
 from .common import Check, cmat, fmt_ints, fmt_matrix, kv
 
 THEOREMS = [
-    "PackVal.validate_ok_iff", "PackVal.validate_ok_iff_feasible", "PackVal.validate_no_oob",
-    "PackVal.mult_check_suffices", "PackVal.bins_contiguous_iff", "PackVal.overlap_loop_iff_pairwise",
-    "PackVal.fromStr_toStr", "PackVal.fromStr_validates", "PackVal.toStr_tokens",
+    "PackVal.validate_ok_iff", "PackVal.accepts_iff_validate", "PackVal.mult_check_suffices",
+    "PackVal.bins_contiguous_iff", "PackVal.overlap_loop_iff_pairwise", "PackVal.validate_no_oob",
+    "PackVal.toStr_tokens", "PackVal.fromStr_toStr", "PackVal.fromStr_validates",
 ]
 
 DTYPES = ["int8", "uint8", "int16", "uint16", "int32", "uint32", "int64", "uint64"]
@@ -355,7 +355,7 @@ def decode_cases(ck: Check, quick):
     from moptipyapps.binpacking2d.packing import Packing
     rng = ck.rng
     out = []
-    for k in range(12 if quick else 120):
+    for k in range(30 if quick else 400):
         W, H, items = gen_random_instance(rng, quick)
         try:
             cx = Ctx(W, H, items)
@@ -385,10 +385,10 @@ def base_cases(ck: Check):
     out.append(("boundary", Ctx(2_000_000_000, 5, [[7, 5, 1], [5, 3, 1]]),
                 [[1, 1, 0, 0, 7, 5], [2, 1, 1_999_999_995, 0, 2_000_000_000, 3]], 1))
     out.append(("boundary", Ctx(10 ** 12, 2, [[3, 2, 2]]),
-                [[1, 2, 0, 0, 3, 2], [1, 1, 10 ** 12 - 2, 0, 10 ** 12, 2]], 2))
+                [[1, 2, 0, 0, 3, 2], [1, 1, 10 ** 12 - 3, 0, 10 ** 12, 2]], 2))
     out.append(("boundary", Ctx(3, 10 ** 9 + 1, [[3, 2, 1], [1, 1, 2]]),
                 [[1, 1, 0, 10 ** 9 - 1, 3, 10 ** 9 + 1], [2, 1, 0, 0, 1, 1], [2, 1, 2, 0, 3, 1]], 1))
-    for k in range(40 if quick else 600):
+    for k in range(150 if quick else 2500):
         big = (k % 5 == 4)
         W, H, items, rows, nb = gen_layout(rng, quick, big)
         out.append(("layout-big" if big else "layout", Ctx(W, H, items), rows, nb))
@@ -397,27 +397,28 @@ def base_cases(ck: Check):
 
 
 def exhaustive_cases(ck: Check):
-    """All 2x6 matrices over 0..3 for two tiny 2-item instances (quick: a seeded slice)."""
+    """All 2x6 matrices over 0..3 for three tiny 2-item instances: a seeded slice of the 4^12 matrices, the
+    sub-cube that contains every accepted matrix, and (thorough) the complete enumeration over 0..2."""
     rng, quick = ck.rng, ck.quick
     row_space = list(itertools.product(range(4), repeat=6))
-    for (W, H, items) in ((2, 2, [[1, 2, 1], [2, 1, 1]]), (3, 2, [[1, 2, 1], [3, 1, 1]]), (2, 2, [[1, 1, 2]])):
+    for k, (W, H, items) in enumerate(((2, 2, [[1, 2, 1], [2, 1, 1]]), (3, 2, [[1, 2, 1], [3, 1, 1]]), (2, 2, [[1, 1, 2]]))):
         cx = Ctx(W, H, items)
-        total = len(row_space) ** 2
-        m = 6000 if quick else 700000
-        for _ in range(m):
+        for _ in range(12000 if quick else 250000):
             a, b = rng.choice(row_space), rng.choice(row_space)
             yield "exh-slice", cx, [list(a), list(b)], max(a[1], b[1])
         # the structured sub-cube that contains every accepted matrix: ids 1..2, bins 1..2, all coordinates
         coords = [(l, b, r, t) for l in range(W + 1) for b in range(H + 1) for r in range(l, W + 2) for t in range(b, H + 2)
                   if r <= 3 and t <= 3]
         if quick:
-            coords = rng.sample(coords, min(len(coords), 14))
+            coords = rng.sample(coords, min(len(coords), 16))
         for ia, ib in itertools.product((1, 2), repeat=2):
             for ba, bb in itertools.product((1, 2), repeat=2):
                 for ca in coords:
                     for cb in coords:
                         yield "exh-cube", cx, [[ia, ba, *ca], [ib, bb, *cb]], max(ba, bb)
-        del total
+        if not quick and k == 0:
+            for m in itertools.product(range(3), repeat=12):
+                yield "exh-full-0..2", cx, [list(m[:6]), list(m[6:])], max(m[1], m[7])
 
 
 # ------------------------------------------------------------------ the streams
@@ -442,7 +443,7 @@ def streams(ck: Check) -> None:
         ck.count("verdict:" + verdict.split(":")[0])
         return p, verdict
 
-    def add_rt(stream, cx, rows, nb, p):
+    def add_rt(stream, cx, rows, nb, p, verdict):
         """to_str / from_str(to_str) on a packing of the right shape and dtype"""
         text = cx.space.to_str(p)
         try:
@@ -455,13 +456,25 @@ def streams(ck: Check) -> None:
             q, res, same = None, "r=" + err_kind(e), False
         line = f"rt {cx.hdr} ; 1 {DTYPES.index(cx.dt)} {nb} ; {fmt_matrix(rows)}"
         ops.append(line)
-        expect.append(("rt", stream, f"s={text} same={'true' if same else 'false'} {res}", (cx, rows, nb, p, q, same)))
+        expect.append(("rt", stream, f"s={text} same={'true' if same else 'false'} {res}", (cx, rows, nb, p, q, same, verdict == "ok")))
         ck.case(line)
         ck.count("rt:" + ("ok" if q is not None else "rejected"))
         if q is not None:
             # what from_str returned goes through the specification (a `val` op on the result)
             ops.append(val_line(cx, [[int(v) for v in r] for r in q.tolist()], int(q.n_bins), str(q.dtype), q.instance is cx.inst))
             expect.append(("val-of-parsed", stream, "ok", (cx, q.tolist(), int(q.n_bins), str(q.dtype), True, "from_str result")))
+
+    def check_copy(stream, cx, rows, nb, p):
+        """create() gives a packing of the instance's shape/dtype; copy() transfers rows and n_bins"""
+        d = cx.space.create()
+        ck.spec(d.shape == (cx.n, 6) and d.dtype is cx.inst.dtype and d.instance is cx.inst, "create_shape",
+                "create() does not return a packing of shape (n_items, 6), the instance's dtype and instance",
+                {"W": cx.W, "H": cx.H, "items": cx.items})
+        d.fill(0)
+        cx.space.copy(d, p)
+        ck.spec(d.tolist() == rows and d.n_bins == nb and impl_validate(cx, d) == "ok", "copy_differs",
+                "copy(dest, y) does not make dest a valid packing equal to y", {"W": cx.W, "H": cx.H, "items": cx.items,
+                                                                              "rows": rows, "n_bins": nb})
 
     def add_fs(stream, cx, text):
         try:
@@ -475,6 +488,65 @@ def streams(ck: Check) -> None:
         ck.case(line)
         ck.count("fs:" + res)
 
+    def flush():
+        outs = ck.model(ops)
+        for line, (op, stream, iout, ctx), mout in zip(ops, expect, outs):
+            if op in ("val", "val-of-parsed"):
+                d = kv(mout)
+                cx, rows, nb, dt, own, cls = ctx
+                mv = d.get("v", mout)
+                # verdict and error kind are compared strictly; the row index / partner / id inside the
+                # message only softly (recorded, not failing): they do not bear on the property
+                ck.compare(stream + ":" + op, line, mv.split(":")[0], iout.split(":")[0])
+                if mv != iout and mv.split(":")[0] == iout.split(":")[0]:
+                    ck.count("soft:error-detail-differs")
+                    if not any(n.startswith("error detail") for n in ck.notes):
+                        ck.notes.append(f"error detail differs (not failing): model {mv} impl {iout} on {line[:300]}")
+                if op == "val":
+                    ck.compare(stream + ":idtype", line, d.get("idt", mout), cx.dt)
+                    ck.compare(stream + ":instvalid", line, d.get("valid", mout), "true")
+                acc = d.get("acc") == "true"
+                case = {"W": cx.W, "H": cx.H, "items": cx.items, "rows": rows, "n_bins": nb, "dtype": dt,
+                        "inst_dtype": cx.dt, "own_instance": own, "corruption": cls, "validate": iout}
+                if len(rows) > 40:
+                    case["rows"] = rows[:40] + ["…"]
+                if cls == "feasible" and not acc:
+                    raise AssertionError(f"generator bug: base packing is not feasible by the Lean specification: {line} -> {mout}")
+                if op == "val-of-parsed":
+                    ck.spec(acc, "from_str_unvalidated", "from_str returned a packing that is not feasible for the instance", case)
+                elif iout == "ok":
+                    ck.spec(acc, "accepts_infeasible",
+                            f"validate accepted a packing that is not feasible ({cls})", case)
+                else:
+                    ck.spec(not acc, "rejects_feasible",
+                            f"validate raised '{iout}' on a feasible packing of the right shape and type ({cls})", case)
+            elif op == "rt":
+                cx, rows, nb, p, q, same, valid_before = ctx
+                ck.compare(stream + ":rt", line, mout, iout)
+                d = kv(mout)
+                case = {"W": cx.W, "H": cx.H, "items": cx.items, "rows": rows if len(rows) <= 40 else rows[:40] + ["…"],
+                        "n_bins": nb, "from_str": iout[:300]}
+                ck.compare(stream + ":to_str", line, d.get("s", ""), kv(iout).get("s", "?"))
+                if q is not None:
+                    # parsing the text form yields a packing equal to the original unless the stored n_bins was wrong
+                    want_same = (nb == max(r[1] for r in rows))
+                    ck.spec(same == want_same, "roundtrip_differs",
+                            "from_str(to_str(y)) is not equal to y (rows, n_bins, dtype, instance)", case)
+                elif valid_before:
+                    ck.spec(False, "roundtrip_rejected", "from_str(to_str(y)) raised although validate(y) succeeded", case)
+            else:
+                ck.compare(stream + ":fs", line, "ok" if mout.startswith("r=ok") else "ERR", iout)
+        # every feasible base packing must have been accepted and round-tripped: checked above through `acc`
+        ops.clear()
+        expect.clear()
+
+    for stream, cx, rows, nb in exhaustive_cases(ck):
+        add_val(stream, "matrix", cx, rows, nb, cx.dt, True)
+        if rng.random() < 0.02:
+            add_val(stream, "matrix-nb", cx, rows, rng.randint(0, 3), cx.dt, True)
+        if len(ops) >= 200000:
+            flush()
+    flush()
     bases = base_cases(ck)
     for stream, cx, rows, nb in bases:
         ck.count(f"base:{stream}")
@@ -482,7 +554,8 @@ def streams(ck: Check) -> None:
         ck.count("n_items:" + ("1" if cx.n == 1 else "2-5" if cx.n <= 5 else "6-20" if cx.n <= 20 else ">20"))
         r = add_val(stream, "feasible", cx, rows, nb, cx.dt, True)
         if r is not None:
-            add_rt(stream, cx, rows, nb, r[0])
+            add_rt(stream, cx, rows, nb, r[0], r[1])
+            check_copy(stream, cx, rows, nb, r[0])
             text = cx.space.to_str(r[0])
             toks = text.split(";")
             add_fs(stream, cx, ";".join(toks[:-1]))
@@ -497,49 +570,19 @@ def streams(ck: Check) -> None:
             r = add_val(stream, cls, cx, c, nb2, dt, own)
             k += 1
             if r is not None and dt == cx.dt and own and len(c) == cx.n and all(len(x) == 6 for x in c) and k % 3 == 0:
-                add_rt(stream, cx, c, nb2, r[0])
-    for stream, cx, rows, nb in exhaustive_cases(ck):
-        add_val(stream, "matrix", cx, rows, nb, cx.dt, True)
-        if rng.random() < 0.02:
-            add_val(stream, "matrix-nb", cx, rows, rng.randint(0, 3), cx.dt, True)
-
-    outs = ck.model(ops)
-    for line, (op, stream, iout, ctx), mout in zip(ops, expect, outs):
-        if op in ("val", "val-of-parsed"):
-            d = kv(mout)
-            cx, rows, nb, dt, own, cls = ctx
-            ck.compare(stream + ":" + op, line, d.get("v", mout), iout)
-            if op == "val":
-                ck.compare(stream + ":idtype", line, d.get("idt", mout), cx.dt)
-                ck.compare(stream + ":instvalid", line, d.get("valid", mout), "true")
-            acc = d.get("acc") == "true"
-            case = {"W": cx.W, "H": cx.H, "items": cx.items, "rows": rows, "n_bins": nb, "dtype": dt,
-                    "inst_dtype": cx.dt, "own_instance": own, "corruption": cls, "validate": iout}
-            if len(rows) > 40:
-                case["rows"] = rows[:40] + ["…"]
-            if op == "val-of-parsed":
-                ck.spec(acc, "from_str_unvalidated", "from_str returned a packing that is not feasible for the instance", case)
-            elif iout == "ok":
-                ck.spec(acc, "accepts_infeasible",
-                        f"validate accepted a packing that is not feasible ({cls})", case)
-            else:
-                ck.spec(not acc, "rejects_feasible",
-                        f"validate raised '{iout}' on a feasible packing of the right shape and type ({cls})", case)
-        elif op == "rt":
-            cx, rows, nb, p, q, same = ctx
-            ck.compare(stream + ":rt", line, mout, iout)
-            d = kv(mout)
-            case = {"W": cx.W, "H": cx.H, "items": cx.items, "rows": rows if len(rows) <= 40 else rows[:40] + ["…"],
-                    "n_bins": nb, "from_str": iout[:300]}
-            ck.compare(stream + ":to_str", line, d.get("s", ""), kv(iout).get("s", "?"))
-            if q is not None:
-                # parsing the text form yields a packing equal to the original unless the stored n_bins was wrong
-                want_same = (nb == max(r[1] for r in rows))
-                ck.spec(same == want_same, "roundtrip_differs",
-                        "from_str(to_str(y)) is not equal to y (rows, n_bins, dtype, instance)", case)
-        else:
-            ck.compare(stream + ":fs", line, "ok" if mout.startswith("r=ok") else "ERR", iout)
-    # every feasible base packing must have been accepted and round-tripped: checked above through `acc`
+                add_rt(stream, cx, c, nb2, r[0], r[1])
+        if len(ops) >= 200000:
+            flush()
+    # the witnesses of the two repaired defects, verbatim
+    cx = Ctx(20, 20, [[10, 5, 1]])
+    for r in ([1, 1, 0, 0, 5, 7], [1, 1, 0, 0, 7, 10], [1, 1, 0, 0, 5, 5], [1, 1, 0, 0, 10, 10], [1, 1, 0, 0, 5, 10],
+              [1, 1, 0, 0, 10, 7], [1, 1, 2, 3, 7, 4], [1, 1, 0, 0, 10, 5], [1, 1, 10, 15, 20, 20]):
+        add_val("boundary", "5x7-for-10x5", cx, [r], 1, cx.dt, True)
+    for (W, H) in ((10 ** 9, 7), (10 ** 9 + 1, 7), (7, 10 ** 9 + 1), (10 ** 12, 7), (7, 10 ** 12)):
+        cx = Ctx(W, H, [[3, 2, 1]])
+        for r in ([1, 1, 0, 0, 3, 2], [1, 1, W - 2, H - 3, W, H], [1, 1, W - 3, H - 2, W, H], [1, 1, W - 2, H - 3, W + 1, H]):
+            add_val("boundary", "bin-side>1e9", cx, [r], 1, cx.dt, True)
+    flush()
 
 
 def check(ck: Check) -> None:
